@@ -57,7 +57,9 @@ def main():
 
     for bp in sorted(glob.glob(os.path.join(env.VERIF, "baseline", "*.json.gz"))):
         name = os.path.basename(bp)[: -len(".json.gz")]
-        canon = None
+        import importlib
+
+        canon = getattr(importlib.import_module("vf.checks." + name.split(".")[0].lower()), "canon_signature", None)
         if name.split(".")[0] == "C03":
             from vf import htmlcmp
 
